@@ -8,7 +8,7 @@ IDS="$@"; [ -z "$IDS" ] && IDS=$(ls seeded)
 for id in $IDS; do
   d=seeded/$id; [ -f $d/patch.diff ] || continue
   checks=$(python3 -c "import json;print(' '.join(json.load(open('$d/meta.json'))['caught_by']))" 2>/dev/null || echo $id)
-  git -C /repo apply $d/patch.diff || { echo "$id: patch does not apply" | tee $d/check_result.txt; continue; }
+  git -C /repo apply /verif/$d/patch.diff || { echo "$id: patch does not apply" | tee $d/check_result.txt; continue; }
   : > $d/check_result.txt
   for c in $checks; do
     VERIF_ROOT=/tmp/vroot_seedrun ./check $c quick > /tmp/seedrun_$id_$c.log 2>&1; rc=$?
